@@ -50,10 +50,10 @@ Proof.
     cbn [slot nth]. rewrite !Z0. apply zf1.
 Qed.
 
-(* with lbfgsMem = 1 the same state gives the secant step -(g / y) s ... *)
+(* with lbfgsMem = 1 the same state gives the secant step -(s / y) g *)
 Lemma dir_1d_mem1 (eps m0 g0 s y : Qc) :
   s * y <> 0 -> fixed_vars eps [m0] [g0] = [false] ->
-  search_dir_pqnr eps [m0] [g0] [[s]] [[y]] [/ (s * y)] 0 1 = [- (g0 / y)].
+  search_dir_pqnr eps [m0] [g0] [[s]] [[y]] [/ (s * y)] 0 1 = [- (s / y) * g0].
 Proof.
   intros Hsy Hfx. destruct (mul_nz s y Hsy) as [Hs Hy].
   unfold search_dir_pqnr. rewrite Hfx.
@@ -62,7 +62,7 @@ Proof.
   replace (next_k 1 0) with 0%nat by reflexivity.
   cbn [loop2]. replace (0 mod 1)%nat with 0%nat by reflexivity.
   unfold vaxpy, vget. cbn [upd slot nth combine map fst snd]. rewrite !qdot1. rewrite zf1.
-  f_equal. unfold q0, q1. field. repeat split; assumption.
+  f_equal. unfold q1. field. repeat split; try assumption. intros E; discriminate E.
 Qed.
 
 (* non-vacuity: the free-variable hypothesis holds, e.g., for m = 5/2 with gradient 1/4 and eps = 1e-8-ish *)
@@ -70,5 +70,5 @@ Example dir_1d_zero_ex :
   search_dir_pqnr (Q2Qc (1 # 100000000)) [Q2Qc (5 # 2)] [Q2Qc (1 # 4)] [[Q2Qc (1 # 2)]; [q0]; [q0]] [[Q2Qc (-1 # 8)]; [q0]; [q0]]
                   [Q2Qc (-16 # 1); q0; q0] 0 1 = [q0]
   /\ map this (search_dir_pqnr (Q2Qc (1 # 100000000)) [Q2Qc (5 # 2)] [Q2Qc (1 # 4)] [[Q2Qc (1 # 2)]] [[Q2Qc (-1 # 8)]] [Q2Qc (-16 # 1)] 0 1)
-     = [2 # 1]%Q.
+     = [1 # 1]%Q.
 Proof. split; vm_compute; reflexivity. Qed.
